@@ -133,3 +133,9 @@ CHECKS["C20"]["text"] += " Every call must leave the series it was given unchang
 CHECKS["C02"]["text"] += " Prices are handed over as a plain frame (USD quote) or in the (frame, quote token) tuple form; option orders use every pricing mode; histories have up to 12 bars with cuts weighted towards late bars."
 CHECKS["C04"]["text"] += " The snapshot includes the Aave views a user reads right after a rejected call (health factor, supply / collateral / debt values and listings)."
 CHECKS["C03"]["text"] += " Option books may sit on a binary-exact grid (levels exactly on a cap); LP positions already held by a vault are offered to a second vault."
+CHECKS["C05"]["text"] += " Programs also act inside Strategy.initialize(): those records belong to the first bar."
+CHECKS["C05"]["note"] += " Universes always contain a minutely market: hourly-only runs (price feed finer than the bar grid) are C16's subject."
+CHECKS["C16"]["text"] += " The account history of the run has exactly one row per bar (also when the price feed is finer than the hourly bar grid)."
+CHECKS["C17"]["text"] += " A 'newrow' operation moves token weights, a USDG amount and the USDG total between operations (targets change from bar to bar)."
+CHECKS["C19"]["text"] += " Every strategy also carries a stateless call-counting trigger and is inspected again after the whole manager run: a later strategy must not reach back into a finished one."
+CHECKS["C04"]["text"] += " Wallets may be sparse (no entry for a token never held)."
